@@ -7,6 +7,7 @@ import NPModel.Refine.PackFlat
 import NPModel.Refine.Samples
 import NPModel.Refine.PackSorted
 import NPModel.Refine.JoinRows
+import NPModel.Refine.ViewTrips
 namespace NP.C02
 open NP
 variable {α : Type}
@@ -125,5 +126,57 @@ example : ([("t", "int64", [10, 11, 12]), ("u", "int64", [0, 1, 2])] : List (Str
 
 example : (PList.ofRows [some [1, 2], none, some [], some [3]]).rows = [some [1, 2], none, some [], some [3]] := by
   decide
+
+/-- **The list view round trip on the implementation model** (`to_lists` then `pack_lists`).  For
+    every nested series on validated storage whose missing rows store nothing (`PCol.Clean`; any
+    chunking, slice offsets and buffers), `to_lists()` succeeds, `pack_lists` accepts the frame of
+    lists it returned, keeps the index and the field names, and row `i` of the re-packed column is
+    present and holds, under every field name, the list that field has in row `i` of the original —
+    no elements where that row was missing.  No value, null or order is lost or invented. -/
+theorem list_view_round_trip (s : NSeries α) (h : s.col.Clean) (hne : s.col.chunks ≠ []) :
+    ∃ df s', s.toLists none = .ok df ∧ packLists df.index df.asChunks true = .ok s' ∧
+      s'.index = s.index ∧ s'.col.ty.map (·.1) = s.col.ty.map (·.1) ∧
+      s'.col.rows = (List.range s.col.len).map fun i =>
+        some (s.col.ty.map fun p => (p.1, (Spec.fieldLists s.col.rows p.1).getD i [])) :=
+  toLists_packLists s h hne
+
+/-- … and with distinct field names that says: every row that held a table comes back as the same
+    table, every missing row as a row without elements (a table of empty lists). -/
+theorem list_view_round_trip_rows (s : NSeries α) (h : s.col.Clean) (hne : s.col.chunks ≠ [])
+    (hn : (s.col.ty.map (·.1)).Nodup) :
+    ∃ df s', s.toLists none = .ok df ∧ packLists df.index df.asChunks true = .ok s' ∧
+      s'.index = s.index ∧
+      s'.col.rows = s.col.rows.map fun r => some (r.getD (s.col.ty.map fun p => (p.1, []))) :=
+  toLists_packLists_rows s h hne hn
+
+/-- **`pack_seq` stores what the dtype sees of every row it is offered** (`normRow`: the dtype's
+    fields in dtype order, looked up by name) whenever each of them is rectangular — any number of
+    rows, missing ones included. -/
+theorem pack_seq_stores_the_rows (idx : List Label) (ty : List (String × String)) (rows : List (Row α))
+    (hrect : ∀ r ∈ rows, Row.rect (normRow ty r) = true) :
+    ∃ s, packSeq idx ty rows = .ok s ∧ s.index = idx ∧ s.col.ty = ty ∧ s.col.rows = rows.map (normRow ty) :=
+  packSeq_rows idx ty rows hrect
+
+/-- **The element view round trip on the implementation model** (`list(series)` then `pack` /
+    `pack_seq` under the column's own dtype): for every validated column in any layout (well formed,
+    null ⇒ empty extent; hidden child lists allowed — they are not part of the element view) with
+    distinct field names, packing its per-row tables succeeds and gives back exactly the same rows,
+    missing rows missing. -/
+theorem element_view_round_trip (s : NSeries α) (hw : s.col.WF = true)
+    (hne : ∀ ch ∈ s.col.chunks, ch.nullEmpty = true) (hv : s.col.validate = .ok ())
+    (hn : (s.col.ty.map (·.1)).Nodup) :
+    ∃ s', packSeq s.index s.col.ty (NArr.iter s.col) = .ok s' ∧ s'.index = s.index ∧ s'.col.ty = s.col.ty ∧
+      s'.col.rows = s.col.rows :=
+  iter_packSeq s hw hne hv hn
+
+/-- non-vacuity: the three-chunk sample column (one chunk a slice into a larger buffer, one empty,
+    a missing row, a null child list) meets the hypotheses of all four theorems -/
+example : Samples.c1.Clean ∧ Samples.c1.chunks ≠ [] ∧ (Samples.c1.ty.map (·.1)).Nodup := by
+  refine ⟨⟨by decide, by decide, by decide, ?_, by decide⟩, by decide, by decide⟩
+  intro s hs
+  simp only [Samples.c1, List.mem_cons, List.not_mem_nil, or_false] at hs
+  rcases hs with rfl | rfl | rfl <;> (unfold PStruct.noHidden; decide)
+
+example : ∀ r ∈ Samples.c1.rows, Row.rect (normRow Samples.c1.ty r) = true := by decide
 
 end NP.C02
